@@ -33,6 +33,11 @@ never through rich.color).
          fv1v2 and the wide ff product), each with a cold and a warm memo and closed by a sentinel
          definition no history parses before; every valid step must still give the style of its own
          definition. Keys history/fault/<entry point of the responsible failing operation>/<clause>.
+(spell)   spelling variants of 18 colours (every form: name, bright/256 name, color(n), #hex, rgb(),
+         default): 6 letter-case variants x 5 blank paddings, and for rgb() all 63 placements of
+         blanks inside the parentheses, through every route that takes the raw string (color= /
+         bgcolor= keyword, Color.parse -> keyword, from_color), fg / bg / both, plain and with
+         bold+link: equal (==, hash, str()) to the canonical spelling and parse(str(s)) == s.
 (routes) for every s in U every construction route (keywords twice, Color objects, parse of
          independent spellings, a+b for every split of the fields with and without overridden
          left values, chain/combine, copy, update_link, without_color, from_color,
@@ -46,9 +51,9 @@ never through rich.color).
          all n, #hex / rgb() on a per-channel grid (quick 25, thorough 70 values + each
          channel over all 256), default, on, link.
 
-Measured: quick 5.4 M evaluations (19.6 k cache histories, 56.6 k fault-history runs), 608 distinct
-outcome signatures, ~115 CPU-s (103 s wall on 16 workers at load average 180; ~20 s on a quiet
-machine); thorough 28.8 M evaluations (78 k + 630 k histories), 624 signatures, ~16 CPU-min.
+Measured: quick 5.5 M evaluations (19.6 k cache histories, 56.6 k fault-history runs, 689 colour
+spelling variants), 625 distinct outcome signatures, ~125 CPU-s (69 s wall on 16 workers at load
+average 96; ~20 s on a quiet machine); thorough (before the spell part) 28.8 M evaluations, ~16 CPU-min.
 """
 import itertools
 import os
@@ -1327,6 +1332,91 @@ def _part_history(sh, tier, res):
     res.sample({"part": "history", "events": [ev[0], ev[len(ev) // 3]]}, limit=1)
 
 
+# ------------------------------------------------------------------ (spell) spelling variants of colours
+SPELL_CANON = COLORS + ["#abcdef", "#ff8800", "color(9)", "rgb(255,136,0)", "bright_black", "dark_olive_green3"]
+
+
+def _form(c):
+    return "hex" if c[0] == "#" else "rgb" if c.startswith("rgb") else "color-n" if c.startswith("color(") else \
+        "default" if c == "default" else "name"
+
+
+def spelling_variants(c):
+    """raw strings every route that takes a colour string must read as the colour c: letter case and
+    surrounding blanks for every form, blanks inside the parentheses of rgb()"""
+    alt = "".join(ch.upper() if i % 2 else ch for i, ch in enumerate(c))
+    cases = [c, c.upper(), c.capitalize(), c.title(), alt, alt.swapcase()]
+    out = []
+    for v in cases:
+        for pre, post in (("", ""), (" ", ""), ("", " "), ("  ", "\t"), ("\n", "\n")):
+            w = pre + v + post
+            if w != c and w not in out:
+                out.append(w)
+    if c.startswith("rgb("):
+        r, g, b = c[4:-1].split(",")
+        for m in range(1, 64):
+            sp = [" " if m >> i & 1 else "" for i in range(6)]
+            for name in ("rgb", "RGB"):
+                w = "%s(%s%s%s,%s%s%s,%s%s%s)" % (name, sp[0], r, sp[1], sp[2], g, sp[3], sp[4], b, sp[5])
+                if w not in out:
+                    out.append(w)
+    return out
+
+
+def check_spelling(c, v, res):
+    """every route that accepts the raw string v (a spelling of the canonical c) must give the style of c"""
+    from rich.style import Style
+    from rich.color import Color
+    form = _form(c)
+    for pos in ("fg", "bg", "both"):
+        for ctx in ((), (("bold", True),)):
+            link = U1 if ctx else None
+            kd = D(ctx, c if pos != "bg" else None, c if pos != "fg" else None, link)
+            kwv = kwargs(D(ctx, v if pos != "bg" else None, v if pos != "fg" else None, link))
+            routes = [("keyword", lambda: Style(**kwv)),
+                      ("Color.parse", lambda: Style(**{k_: (Color.parse(x) if k_ in ("color", "bgcolor") else x) for k_, x in kwv.items()}))]
+            if not ctx:
+                routes.append(("from_color", lambda: Style.from_color(Color.parse(v) if pos != "bg" else None,
+                                                                    Color.parse(v) if pos != "fg" else None)))
+            for rname, make in routes:
+                case = {"part": "spell", "c": c, "v": v}
+                res.evaluations += 1
+                try:
+                    k, s = build(kd), make()
+                    got = RefStyle.from_rich(s)
+                    clause = None
+                    if got != ref(kd):
+                        clause, detail = "value", "means %r, the colour is %r" % (got, ref(kd))
+                    elif not _eq(s, k):
+                        clause, detail = "eq", "is not == to the style spelled %r (colour names %r / %r)" % (
+                            c, (s.color or s.bgcolor).name, (k.color or k.bgcolor).name)
+                    elif not _hash_ok(s, k):
+                        clause, detail = "hash", "== the style spelled %r but hashes differently" % c
+                    elif str(s) != str(k):
+                        clause, detail = "str", "str() %r differs from %r of the equal style" % (str(s), str(k))
+                    else:
+                        rt = _roundtrip(s, res)
+                        if rt and rt[0] != "hash":
+                            clause, detail = "roundtrip-" + rt[0] + rt[1], rt[2]
+                    if clause:
+                        res.violate("spelling/%s/%s" % (form, clause), case,
+                                    "%s route, %s=%r (%s): %s" % (rname, pos, v, "with bold+link" if ctx else "plain", detail))
+                except Exception as exc:
+                    res.violate("spelling/%s/error-%s" % (form, type(exc).__name__), case,
+                                "%s route, %s=%r: %s" % (rname, pos, v, traceback.format_exc()[-500:]))
+    res.sig(("spell", form, v != v.strip(), v.lower() != v, " " in v.strip()), nontrivial=True)
+
+
+def _part_spell(res):
+    n = 0
+    for c in SPELL_CANON:
+        for v in spelling_variants(c):
+            check_spelling(c, v, res)
+            n += 1
+    res.counters["colour_spelling_variants"] = n
+    res.sample({"part": "spell", "c": "#abcdef", "v": " #ABCDEF "}, limit=1)
+
+
 # ------------------------------------------------------------------ (fault) error-path histories
 def probe_events():
     """valid operations whose result is known from the description: one per entry point and kind of field"""
@@ -1457,7 +1547,7 @@ def plan(tier, seed):
     shards += [{"part": "assoc", "i": i, "n": 8 if q else 30} for i in range(8 if q else 30)]
     shards += [{"part": "routes", "i": i, "n": 16 if q else 32} for i in range(16 if q else 32)]
     shards += [{"part": "vec", "i": i, "n": 4 if q else 64} for i in range(4 if q else 64)]
-    shards += [{"part": "docs"}]
+    shards += [{"part": "docs"}, {"part": "spell"}]
     shards += [{"part": "history", "i": i, "n": 6 if q else 16} for i in range(6 if q else 16)]
     shards += [{"part": "fault", "i": i, "n": 12 if q else 32} for i in range(12 if q else 32)]
     shards += [{"part": "grid", "i": i, "n": 6 if q else 16} for i in range(6 if q else 16)]
@@ -1481,6 +1571,8 @@ def run_shard(sh, tier, seed):
         _part_history(sh, tier, res)
     elif p == "fault":
         _part_fault(sh, tier, res)
+    elif p == "spell":
+        _part_spell(res)
     elif p == "grid":
         _part_grid(sh, tier, res)
     return res
@@ -1501,6 +1593,8 @@ def describe(tier, seed, res):
                 "(fault) all histories of shapes fv, fvv, vfv, ffv (thorough: + fv1v2, wide ff) over 15 valid probe operations and 226 failing "
                 "ones (72 definitions rejected at word group k x parse/normalize/get_style(default=), Color.parse, +/combine/chain), cold and "
                 "warm memo, each closed by a fresh sentinel definition; "
+                "(spell) letter-case x blank-padding variants (and all inner-blank placements of rgb()) of 18 colour spellings through the "
+                "keyword, Color.parse and from_color routes, fg/bg/both; "
                 "(vec) %s attribute vectors; (docs) all "
                 "documented attribute spellings, %d colour names, color(0..255), #hex and rgb() on a %d^3 grid plus each "
                 "channel over 0..255. A case is non-trivial when both/all operands specify something (pairs, triples), "
@@ -1544,6 +1638,8 @@ def replay(case):
         _part_docs(res)
     elif p == "history":
         check_history(case["events"], res)
+    elif p == "spell":
+        check_spelling(case["c"], case["v"], res)
     elif p == "fault":
         check_fault_history(case["events"], res, warm=case.get("warm", False))
     elif p == "rgb":
